@@ -714,6 +714,8 @@ func runAct(casesPath, tracePath string, shard, shards int) {
 // sArrival is one request seen by a scripted host.
 type sArrival struct {
 	Token, Upstream, Behave string
+	URI, Orig               string
+	Hdr                     map[string]string
 }
 
 // sReg numbers the arrivals per token over all hosts and logs them.
@@ -756,7 +758,8 @@ func newScriptUp(name string, reg *sReg) (addr string, stop func()) {
 		if b == "" {
 			b = "ok"
 		}
-		reg.log[tok] = append(reg.log[tok], sArrival{Token: tok, Upstream: name, Behave: b})
+		reg.log[tok] = append(reg.log[tok], sArrival{Token: tok, Upstream: name, Behave: b, URI: req.RequestURI,
+			Orig: req.Header.Get("X-Mosn-Original-Path"), Hdr: hdrObs(req.Header)})
 		rel := reg.release
 		reg.mu.Unlock()
 		hijack := func() net.Conn {
@@ -768,6 +771,13 @@ func newScriptUp(name string, reg *sReg) (addr string, stop func()) {
 			return nil
 		}
 		reply := func(code int) {
+			want := req.Header.Get("X-Want")
+			if strings.Contains(want, "a") {
+				w.Header().Set("x-a", "c")
+			}
+			if strings.Contains(want, "b") {
+				w.Header().Set("x-b", "c")
+			}
 			w.Header().Set("X-Token", tok)
 			w.Header().Set("X-Upstream", name)
 			w.WriteHeader(code)
@@ -814,8 +824,26 @@ type policy struct {
 	Codes []uint32 `json:"codes"`
 }
 type retryCase struct {
-	Pol    policy   `json:"pol"`
-	Script []string `json:"script"`
+	Pol    policy          `json:"pol"`
+	Script []string        `json:"script"`
+	Act    json.RawMessage `json:"act"`
+}
+
+const plainAct = `{"lv":{"route":{"add":[],"rm":[]},"vhost":{"add":[],"rm":[]},"router":{"add":[],"rm":[]}},"hin":{"x-a":"-","x-b":"-"},` +
+	`"rlv":{"route":{"add":[],"rm":[]},"vhost":{"add":[],"rm":[]},"router":{"add":[],"rm":[]}},"rhin":{"x-a":"-","x-b":"-"},` +
+	`"pr":[],"rr":"none","path":["/","a","/","x"]}`
+
+// retryAct: the actions the route of a retry run carries (shapes of RouteAction.tla) and the original request.
+type retryAct struct {
+	Lv   levels            `json:"lv"`
+	Hin  map[string]string `json:"hin"`
+	Rlv  levels            `json:"rlv"`
+	Rhin map[string]string `json:"rhin"`
+	Pr   []string          `json:"pr"`
+	Rr   string            `json:"rr"`
+	Rxp  string            `json:"rxp"`
+	Rxs  string            `json:"rxs"`
+	Path []string          `json:"path"`
 }
 
 func u64(x interface{}) uint64 {
@@ -1025,7 +1053,33 @@ func runRetry(casesPath, tracePath, resPath string, shard, shards int) {
 		if c.Pol.On || c.Pol.N > 0 || len(c.Pol.Codes) > 0 || t > 0 {
 			r.Route.RetryPolicy = &v2.RetryPolicy{RetryPolicyConfig: v2.RetryPolicyConfig{RetryOn: c.Pol.On, NumRetries: c.Pol.N, StatusCodes: c.Pol.Codes}, RetryTimeout: ms(t)}
 		}
-		setRouters(routerConfig(v2.VirtualHost{Routers: []v2.Router{r}}, level{}, level{}))
+		if len(c.Act) == 0 {
+			c.Act = json.RawMessage(plainAct)
+		}
+		act := &retryAct{}
+		if err := json.Unmarshal(c.Act, act); err != nil {
+			return err
+		}
+		r.Route.RequestHeadersToAdd, r.Route.RequestHeadersToRemove = adds(act.Lv.Route), rms(act.Lv.Route)
+		r.Route.ResponseHeadersToAdd, r.Route.ResponseHeadersToRemove = adds(act.Rlv.Route), rms(act.Rlv.Route)
+		r.Route.PrefixRewrite = strings.Join(act.Pr, "")
+		if act.Rr != "none" {
+			r.Route.RegexRewrite = &v2.RegexRewrite{Pattern: v2.PatternConfig{Regex: act.Rxp}, Substitution: act.Rxs}
+		}
+		setRouters(routerConfig(v2.VirtualHost{Routers: []v2.Router{r},
+			RequestHeadersToAdd: adds(act.Lv.Vhost), RequestHeadersToRemove: rms(act.Lv.Vhost),
+			ResponseHeadersToAdd: adds(act.Rlv.Vhost), ResponseHeadersToRemove: rms(act.Rlv.Vhost)}, act.Lv.Router, act.Rlv.Router))
+		reqHdr := map[string]string{"Host": "h.local"}
+		want := ""
+		for _, k := range names {
+			if act.Hin[k] != "-" {
+				reqHdr[k] = act.Hin[k]
+			}
+			if act.Rhin[k] != "-" {
+				want += k[2:]
+			}
+		}
+		reqHdr["X-Want"] = want
 		// behaviours by arrival: attempts that never reach a host (refused, overflow) consume none
 		bs := []string{}
 		for i := 0; i < 12; i++ {
@@ -1077,7 +1131,8 @@ func runRetry(casesPath, tracePath, resPath string, shard, shards int) {
 			}
 			cl, err := e2e.DialHTTP(laddr)
 			vh.Must(err, "dial proxy")
-			vh.Must(cl.Send("GET", "/r/x", map[string]string{"Host": "h.local", "X-Token": tok, "X-Script": strings.Join(bs, ",")}, ""), "send")
+			reqHdr["X-Token"], reqHdr["X-Script"] = tok, strings.Join(bs, ",")
+			vh.Must(cl.Send("GET", strings.Join(act.Path, ""), reqHdr, ""), "send")
 			reached = true
 			if ovfAt > 0 {
 				// the breaker fills up between two attempts: hold the worker before the retry reaches the pool
@@ -1120,15 +1175,33 @@ func runRetry(casesPath, tracePath, resPath string, shard, shards int) {
 		}
 		nh := 4
 		tr.Emit(vh.Ev{"ev": "run", "pol": map[string]interface{}{"on": c.Pol.On, "n": c.Pol.N, "codes": nonNil(c.Pol.Codes)}, "script": c.Script,
-			"nhosts": nh, "g": g, "t": t, "cluster": cname, "name": tok})
+			"nhosts": nh, "g": g, "t": t, "cluster": cname, "name": tok, "act": c.Act})
 		natt := 0
+		arr := reg.arrivals(tok)
+		used := make([]bool, len(arr))
 		for _, e := range buf {
+			tr.Emit(e)
 			if e["ev"] == "att" {
 				natt++
+				// what the host of this attempt received: its next arrival in the scripted hosts' log
+				for i, a := range arr {
+					if !used[i] && a.Upstream == e["host"] {
+						used[i] = true
+						p := a.URI
+						if j := strings.Index(p, "?"); j >= 0 {
+							p = p[:j]
+						}
+						tr.Emit(vh.Ev{"ev": "rcv", "host": a.Upstream, "path": chars(p), "hdr": a.Hdr, "orig": chars(a.Orig)})
+						break
+					}
+				}
 			}
-			tr.Emit(e)
 		}
-		tr.Emit(vh.Ev{"ev": "fin", "kind": o.Kind, "status": o.Status, "elapsed": o.ElapsedMs, "up": o.Header.Get("X-Upstream"), "active": active()})
+		down := map[string]string{"x-a": "-", "x-b": "-"}
+		if o.Kind == "response" {
+			down = hdrObs(o.Header)
+		}
+		tr.Emit(vh.Ev{"ev": "fin", "kind": o.Kind, "status": o.Status, "elapsed": o.ElapsedMs, "up": o.Header.Get("X-Upstream"), "active": active(), "down": down})
 		rs.Put(map[string]interface{}{"idx": idx, "case": c, "reached": reached, "attempts": natt, "status": o.Status, "kind": o.Kind})
 		atomic.StoreUint64(&minRid, rid+1)
 		return nil
